@@ -7,7 +7,7 @@
    sub-steps of getLayer (LoadRef / Resolve / Probe) and timer expiries of the resolver cache (Expire): every interleaving
    of racing lookups, at the granularity of one resolveLayer call, is such a list. [w] is an arbitrary registry. *)
 From Coq Require Import List Arith ZArith Bool.
-From SV Require Import Model.Store Proofs.Store Model.StoreFS Proofs.StoreFS.
+From SV Require Import Model.Store Proofs.Store Model.StoreFS Proofs.StoreFS Model.StoreRef Proofs.StoreRef.
 Import ListNotations.
 
 (* Lookup of a digest that no layer of the image has fails - in every reachable state, whatever the fault script. *)
@@ -265,6 +265,44 @@ Proof.
   intros o r t. exact (fs_keeps_used v w fos o r t).
 Qed.
 Print Assumptions C16_fs_counts_and_uses.
+
+(* ------------------------------------------------------------------------------------------------------------
+   Phase 3. Layer handles (Model/StoreRef.v): the manager model composed with the reference counting of the resolver's
+   TTL cache, so that Layer.Done() is in the model. [rexec DupFresh] is the code; its manager component is exactly the
+   manager model, for every history. *)
+Theorem C16_handle_model_is_manager_model :
+  forall (w : world) (os : list op), base (rexec DupFresh w rinit os) = exec Fixed w init os.
+Proof. intros w os. exact (rexec_base w os rinit). Qed.
+Print Assumptions C16_handle_model_is_manager_model.
+
+(* The manager never gives back a handle it keeps: in every reachable state - any history of lookups, uses, releases,
+   sub-steps and TTL expiries of the resolver cache, any faults - every layer in LayerManager.layer is held through an
+   outstanding handle on an object that is not closed (so Check / Verify / RootNode / ReadAt on it keep working). *)
+Theorem C16_held_layers_stay_open :
+  forall (w : world) (os : list op) (r t : nat),
+    let s := rexec DupFresh w rinit os in
+    cached (base s) r t = true ->
+    exists i o, In (r, t, i) (held s) /\ nth_error (objs s) i = Some o /\ ob_closed o = false /\ (1 <= ob_refs o)%Z.
+Proof. intros w os r t. exact (held_layers_open w os r t). Qed.
+Print Assumptions C16_held_layers_stay_open.
+
+Theorem C16_no_held_layer_closed :
+  forall (w : world) (os : list op), closed_held (rexec DupFresh w rinit os) = [].
+Proof. exact closed_held_nil. Qed.
+Print Assumptions C16_no_held_layer_closed.
+
+(* If resolveLayer gave back the kept handle instead of the duplicate (DupHeld), the clause would fail exactly as in the
+   seeded change: B in use, TTL expiry, sibling A released to zero and looked up again -> B, cached and in use, is closed. *)
+Theorem C16_done_on_held_handle_refuted :
+  exists (w : world) (os : list op) (r t : nat),
+    let s := rexec DupHeld w rinit os in
+    cached (base s) r t = true /\ uses (base s) r t = 1%Z /\ In (r, t) (closed_held s).
+Proof.
+  exists (mkW [Some 0; Some 1] [[0; 1]]),
+         [Lookup 0 0 false []; Use 0 0; Use 0 1; Expire 0 0; Expire 0 1; Release 0 0; Lookup 0 0 false []], 0, 1.
+  vm_compute. repeat split; auto.
+Qed.
+Print Assumptions C16_done_on_held_handle_refuted.
 
 Example C16_fs_nonvacuous :
   let w := mkW [Some 0; Some 1; None] [[0; 1; 2]] in
